@@ -54,7 +54,7 @@ Proof. unfold consistent, l0. cbn. lia. Qed.
    in whatever way (exhausted, closed, dropped, ended by an error) everything it opened is closed *)
 Theorem reader_balanced r es :
   let '(s, l) := grun r Fresh l0 es in
-  caller_closed l = 0 /\
+  caller_closed l = 0 /\ closed l <= opened l /\
   match s with
   | Fresh => opened l = 0
   | Suspended _ => held l = (if r_owns r then 1 else 0)
@@ -62,7 +62,7 @@ Theorem reader_balanced r es :
   end.
 Proof.
   pose proof (grun_consistent r es Fresh l0 (fresh_consistent r)) as H.
-  destruct (grun r Fresh l0 es) as [s l]. destruct H as (C & _ & H). split; [exact C|].
+  destruct (grun r Fresh l0 es) as [s l]. destruct H as (C & LE & H). split; [exact C|]. split; [exact LE|].
   destruct s; [tauto|tauto|exact H].
 Qed.
 
@@ -182,7 +182,7 @@ Qed.
    any block of any file - nothing is held *)
 Theorem loader_balanced rs es :
   let '(rs', s, l) := lrun rs Fresh l0 es in
-  caller_closed l = 0 /\ held l <= 1 /\
+  caller_closed l = 0 /\ closed l <= opened l /\ held l <= 1 /\
   match rs', s with
   | r :: _, Suspended _ => held l = (if r_owns r then 1 else 0)
   | _, _ => held l = 0
@@ -191,9 +191,9 @@ Proof.
   assert (linv rs Fresh l0) as H0 by (destruct rs; unfold linv, hinv, held, l0; cbn; lia).
   pose proof (lrun_linv es rs Fresh l0 H0) as H. destruct (lrun rs Fresh l0 es) as [[rs' s] l].
   destruct rs' as [|r rest]; cbn [linv] in H.
-  - destruct H as (C & _ & Hh). repeat split; [exact C|lia|exact Hh].
-  - destruct H as (C & _ & Hh). destruct s; [repeat split; try lia; exact C| |repeat split; try lia; exact C].
-    destruct Hh as (Hh & _). repeat split; [exact C| |exact Hh]. destruct (r_owns r); lia.
+  - destruct H as (C & LE & Hh). repeat split; [exact C|exact LE|lia|exact Hh].
+  - destruct H as (C & LE & Hh). destruct s; [repeat split; try lia; exact C| |repeat split; try lia; exact C].
+    destruct Hh as (Hh & _). repeat split; [exact C|exact LE| |exact Hh]. destruct (r_owns r); lia.
 Qed.
 
 (* a terminal event finishes the loader whatever it was doing *)
